@@ -12,7 +12,7 @@ section
 attribute [local simp] RoundTrips FixedAfter ShellKept shell elemComp ownCirc reloadFrom reloadElem DElem.toSym construct classInfo
     Gen.elemClasses classChain bindParams evalF evalP compOfSym ctorValue
     lookupD truthy dictSet List.lookup List.find? negVal Gen.translatorMap Gen.translators runCases runCase
-    nodeTuple evalV Sym.getAttr Gen.ctors applyCtor evalC valNeg dictifyElement userParams serializeVal undictifyDElem
+    nodeTuple evalV Sym.getAttr Gen.ctors applyCtor evalC valNeg valNonPos dictifyElement userParams serializeVal undictifyDElem
     undictifyKwargs combineToComplex Gen.loaderTypes dictUpdate bind Except.bind pure Except.pure List.mapM List.mapM.loop List.foldlM
     forIn Gen.undictifySteps List.contains List.elem Gen.knownWavetypes GQ.neg_def GQ.eta GQ.im_zero GQ.re_zero GQ.mk_zero GQ.mk_eq_zero
     Functor.map Except.map throw throwThe MonadExceptOf.throw
